@@ -9,10 +9,14 @@ tie:    correspondence - real rime::Calculus/Projection/Script and Prism::Build/
         to the model as its `capply` tables, so boost::regex is the oracle and the merge logic, the
         map order, the id assignment and the searches are what is compared.
 search: the property's clauses evaluated directly (python, independent of the model) on the
-        implementation's scripts and query results.
+        implementation's scripts and query results; what "a rule matched a spelling" means is checked
+        against an independent reference of the six rule kinds (python `re` on bytes: erase = fullmatch,
+        xform/derive/fuzz/abbrev = replace all matches and apply iff changed, xlit = per-character map)
+        on every sampled (rule, spelling) effect.
 """
 import os
 import random
+import re
 
 import vlib
 
@@ -39,6 +43,14 @@ MUTATION_DRILLS = [
      "fired": "VIOLATION oracle:additive-degraded (credibility 0 -> -1 under a derive round)"},
     {"mutation": "algebra.cc Projection::Apply: `x->addition() && !s.str.empty()` -> `x->addition()` (empty results merged)",
      "fired": "VIOLATION oracle:empty-key (the empty string became a spelling)"},
+    {"mutation": "calculus.cc Erasion::Apply re-implemented as regex_replace(spelling, pattern, \"\") leaving nothing (instead of regex_match) "
+                 "- the seeded change the first version of this check missed because rule effects were only sampled from the implementation",
+     "fired": "VIOLATION oracle:rule-effect:erase with the rule and spelling (erase/a|u\u00f1/ on 'au\u00f1': implementation applied -> '', the rule's definition "
+              "(python re.fullmatch reference) says not applied)"},
+    {"mutation": "calculus.cc Erasion::Apply: regex_match -> regex_search",
+     "fired": "VIOLATION oracle:rule-effect:erase (same input class)"},
+    {"mutation": "calculus.cc Transformation::Apply: regex_replace(..., boost::format_first_only) (first match only)",
+     "fired": "VIOLATION oracle:rule-effect:derive (derive/d.?/c/ on 'dadb': implementation 'cdb', reference 'cc'); also abbrev and xform instances"},
     {"mutation": "prism.cc Prism::ExpandSearch: `++count >= limit` -> `++count > limit` in the scan loop",
      "fired": "VIOLATION oracle:expand (ExpandSearch('', limit 1) = 0:1,1:1, expected [(0, 1)])"},
 ]
@@ -72,6 +84,9 @@ class Gen:
         else:
             self.letters = r.sample(ASCII_LETTERS, r.randint(2, 5))
         self.tones = r.random() < 0.3 and not utf8
+        # short "units": patterns built from them meet spellings that are repetitions / concatenations
+        # of matches - where regex_match, regex_search and regex_replace-to-empty differ
+        self.units = ["".join(r.choice(self.letters) for _ in range(r.randint(1, 2))) for _ in range(2)]
 
     def word(self, lo=1, hi=5):
         r = self.rng
@@ -92,8 +107,17 @@ class Gen:
             out.append(out[0] + self.word(1, 2))
         if out and len(out[0]) > 1 and r.random() < 0.4:
             out.append(out[0][:-1])
+        if r.random() < 0.55:
+            u, w = self.units
+            out += r.sample([u, u + u, u + u + u, u + w, w + u, u + w + u, w + w, u + w + u + w], r.randint(2, 5))
         r.shuffle(out)
         return out
+
+    def unit_pattern(self):
+        r = self.rng
+        u, w = self.units
+        return r.choice([u, w, "%s|%s" % (u, w), "^" + u, u + "$", "(%s)+" % u, "(%s|%s)" % (u, w),
+                         "^(%s)+$" % u, "^%s|%s$" % (u, w), u + w, "(%s)\\1" % u])
 
     # --- regular expressions (boost perl syntax): anchors, classes, groups, alternation,
     #     quantifiers, back-references.  In utf8 mode only whole characters are used as atoms
@@ -162,6 +186,20 @@ class Gen:
         return out
 
     def formula(self, syls):
+        # in UTF-8 mode a pattern that can match the empty string would insert its replacement between
+        # the bytes of a multi-byte character (boost::regex works on bytes): outside the domain
+        for _ in range(50):
+            kind, f = self.formula1(syls)
+            if not self.utf8 or kind == "xlit":
+                return kind, f
+            try:
+                if re.compile(f.encode().split(b"/")[1]).search(b"") is None:
+                    return kind, f
+            except re.error:
+                return kind, f
+        return "erase", "erase/^%s$/" % self.letters[0]
+
+    def formula1(self, syls):
         r = self.rng
         kind = r.choice(KINDS)
         if kind == "xlit":
@@ -170,11 +208,19 @@ class Gen:
             right = [r.choice(self.letters + (["x"] if r.random() < 0.2 else [])) for _ in left]
             return kind, "xlit/%s/%s/" % ("".join(left), "".join(right))
         if kind == "erase":
-            if r.random() < 0.4 and syls:
+            x = r.random()
+            if x < 0.3 and syls:
                 s = r.choice(syls)      # a pattern that certainly matches one whole syllable
                 return kind, "erase/^%s$/" % s
-            p, _ = self.pattern(whole=True)
+            if x < 0.5:
+                p, _ = self.pattern(whole=True)
+                return kind, "erase/%s/" % p
+            if x < 0.8:                 # un-anchored / partially anchored, over the units
+                return kind, "erase/%s/" % self.unit_pattern()
+            p, _ = self.pattern()       # random anchors
             return kind, "erase/%s/" % p
+        if r.random() < 0.2:
+            return kind, "%s/%s/%s/" % (kind, self.unit_pattern(), r.choice(["", "", r.choice(self.letters), self.units[1]]))
         if r.random() < 0.25 and syls:
             # aimed rule: rewrite a concrete syllable (or its head) into another one -> collisions
             s = r.choice(syls)
@@ -326,6 +372,152 @@ def sample_table(txt):
     return t
 
 
+# ---------------------------------------------------------------------------
+# independent reference for what the six rule kinds do to one spelling (python `re` on bytes), as
+# coded in calculus.cc: erase applies iff the pattern matches the WHOLE spelling (regex_match) and
+# leaves the empty string; xform/derive/fuzz/abbrev replace ALL matches (regex_replace, perl format)
+# and apply iff the result differs from the input; fuzz/abbrev add type 1/2 and one penalty; xlit maps
+# characters one by one and applies iff some character is in the map (even when mapped to itself);
+# nothing applies to the empty string.  Formulas outside the subset python is known to share with
+# boost's perl syntax are skipped and counted.
+# ---------------------------------------------------------------------------
+
+import re
+
+
+class RefSkip(Exception):
+    pass
+
+
+_REF_CACHE = {}
+
+
+def ref_rule(kind, formula):
+    """-> function spelling bytes -> None | (result bytes, type, cred str); raises RefSkip"""
+    key = (kind, formula)
+    if key in _REF_CACHE:
+        r = _REF_CACHE[key]
+        if isinstance(r, RefSkip):
+            raise r
+        return r
+    try:
+        r = _ref_rule(kind, formula)
+    except RefSkip as e:
+        _REF_CACHE[key] = e
+        raise
+    _REF_CACHE[key] = r
+    return r
+
+
+def _ref_pattern(pat):
+    # escapes shared with python: \d and back-references; groups: plain and (?:...)
+    for m in re.finditer(rb"\\(.)", pat):
+        if not (m.group(1).isdigit() and m.group(1) != b"0") and m.group(1) != b"d":
+            raise RefSkip("escape \\%s" % m.group(1).decode("latin1"))
+    if b"[:" in pat or b"[." in pat or b"[=" in pat:
+        raise RefSkip("posix class")
+    if re.search(rb"\(\?(?!:)", pat):
+        raise RefSkip("(? construct")
+    if re.search(rb"[*+?}][*+?{]", pat):
+        raise RefSkip("stacked quantifier")
+    if b"{" in pat:
+        raise RefSkip("brace quantifier")
+    # a back-reference inside a repeated group sees the capture of an earlier iteration; python and
+    # boost/perl are known to differ there (a loop iteration that matched the empty string ends the
+    # loop in perl semantics, python goes on) - e.g. ^((i|n?)?|\\2[en])+o*c on "ece1"
+    stack, spans, refs, i, in_class = [], [], [], 0, False
+    while i < len(pat):
+        ch = pat[i:i + 1]
+        if ch == b"\\":
+            if pat[i + 1:i + 2].isdigit():
+                refs.append(i)
+            i += 2
+            continue
+        if in_class:
+            in_class = ch != b"]"
+        elif ch == b"[":
+            in_class = True
+            if pat[i + 1:i + 2] == b"^":
+                i += 1
+            if pat[i + 1:i + 2] == b"]":
+                i += 1
+        elif ch == b"(":
+            stack.append(i)
+        elif ch == b")" and stack:
+            o = stack.pop()
+            if pat[i + 1:i + 2] in (b"*", b"+", b"?"):
+                spans.append((o, i))
+        i += 1
+    if any(o < r < c for r in refs for o, c in spans):
+        raise RefSkip("back-reference inside a repeated group")
+    try:
+        return re.compile(pat)
+    except re.error as e:
+        raise RefSkip("python refuses the pattern: %s" % e)
+
+
+def _ref_rule(kind, formula):
+    args = formula.split(b"/")          # the generator always separates with '/'
+    if kind == "xlit":
+        try:
+            left, right = args[1].decode("utf8"), args[2].decode("utf8")
+        except UnicodeDecodeError:
+            raise RefSkip("xlit not utf-8")
+        if len(left) != len(right):
+            raise RefSkip("xlit lengths differ")
+        cmap = {}
+        for a, b in zip(left, right):
+            cmap[a] = b
+
+        def xlit(sp):
+            if not sp:
+                return None
+            if len(sp) > 240:
+                raise RefSkip("xlit buffer")
+            try:
+                t = sp.decode("utf8")
+            except UnicodeDecodeError:
+                raise RefSkip("spelling not utf-8")
+            if not any(ch in cmap for ch in t):
+                return None
+            return ("".join(cmap.get(ch, ch) for ch in t).encode("utf8"), 0, "0")
+        return xlit
+    rx = _ref_pattern(args[1])
+    if kind == "erase":
+        return lambda sp: None if (not sp or rx.fullmatch(sp) is None) else (b"", 0, "0")
+    rep = args[2]
+    toks, i = [], 0
+    while i < len(rep):
+        ch = rep[i:i + 1]
+        if ch == b"$":
+            j = i + 1
+            while j < len(rep) and rep[j:j + 1].isdigit():
+                j += 1
+            if j != i + 2:
+                raise RefSkip("replacement $ form")
+            n = int(rep[i + 1:j])
+            if n == 0 or n > rx.groups:
+                raise RefSkip("replacement group out of range")
+            toks.append(n)
+            i = j
+        elif ch in b"\\(){}?:&":
+            raise RefSkip("replacement special character")
+        else:
+            toks.append(ch)
+            i += 1
+
+    def expand(m):
+        return b"".join((m.group(t) or b"") if isinstance(t, int) else t for t in toks)
+    ty, cr = {"fuzz": (1, "-1"), "abbrev": (2, "-1")}.get(kind, (0, "0"))
+
+    def xform(sp):
+        if not sp:
+            return None
+        res = rx.sub(expand, sp)
+        return None if res == sp else (res, ty, cr)
+    return xform
+
+
 def schar_key(b):
     return tuple(x - 256 if x >= 128 else x for x in b)
 
@@ -334,9 +526,35 @@ def schar_key(b):
 # the property's clauses on the implementation's observations
 # ---------------------------------------------------------------------------
 
-def oracle(c, d):
+def oracle(c, d, refstats=None):
     """-> list of (clause key, description, details) violated by the implementation on this case."""
     bad = []
+    if refstats is None:
+        refstats = {"checked": 0, "applied": 0, "skipped": {}}
+    # (r) what "the rule matched the spelling" means: every sampled effect of Calculation::Apply against
+    #     the independent reference
+    for r, (kind, f) in enumerate(c["rules"]):
+        try:
+            fn = ref_rule(kind, f)
+        except RefSkip as e:
+            why = str(e)
+            refstats["skipped"][why] = refstats["skipped"].get(why, 0) + len(sample_table(d["samples"][r]))
+            continue
+        for sp, got in sample_table(d["samples"][r]).items():
+            try:
+                want = fn(sp)
+            except RefSkip as e:
+                refstats["skipped"][str(e)] = refstats["skipped"].get(str(e), 0) + 1
+                continue
+            refstats["checked"] += 1
+            refstats["applied"] += 1 if want is not None else 0
+            if got != want:
+                def show(x):
+                    return "not applied" if x is None else "applied -> %r (type %d, credibility %s)" % x
+                bad.append(("rule-effect:" + kind,
+                            "%s on spelling %r: the implementation says %s, the rule's definition says %s"
+                            % (f.decode("utf8", "replace"), sp, show(got), show(want)),
+                            {"rule": f.decode("utf8", "replace"), "rule_hex": hx(f), "spelling": hx(sp), "round": r}))
     syllabary = sorted(set(c["syls"]))
     sylset = set(syllabary)
     init = [(s, [(s, 0, "0", "-")]) for s in syllabary]
@@ -442,7 +660,7 @@ def run(ctx):
     ctx.coverage["trusted_base"] = [
         "Coq 8.16.1 kernel (vm_compute only in the non-vacuity examples); no native_compute",
         "Dict/Algebra.v, Dict/PrismModel.v as faithful ports of algebra.cc / calculus.h flags / prism.cc (validated by the correspondence)",
-        "boost::regex / the xlit map: not modelled - each calculation's effect is an arbitrary function in the theorems and a table sampled from the implementation in the correspondence",
+        "boost::regex / the xlit map: not modelled - each calculation's effect is an arbitrary function in the theorems and a table sampled from the implementation in the correspondence; the sampled effects are checked against a python `re` reference of the rule kinds' documented semantics (trusted as reference for the generated regex subset)",
         "darts-clone double array: abstract trie (residual key sets); mapped-file byte layout: identity (both exercised by the harness through Build/Save/Load)",
         "extraction: ExtrOcamlBasic only; ocaml/common/glue*.ml + ocaml/c09/driver.ml are conversion glue",
         "harness/c09/c09.cc on the ASan+UBSan build of /repo's working tree",
@@ -535,6 +753,7 @@ def run(ctx):
             model.setdefault(f[0], []).append(l)
 
     mism, orac = [], []
+    refstats = {"checked": 0, "applied": 0, "skipped": {}}
     nontrivial = set()
     samples_out = []
     for c in fed:
@@ -554,7 +773,7 @@ def run(ctx):
                     stats["direct_merge_types"][str(x[1])] = stats["direct_merge_types"].get(str(x[1]), 0) + 1
                     stats["direct_merge_tips"] += 1 if x[3] != "-" else 0
             continue
-        for kkey, what, det in oracle(c, d):
+        for kkey, what, det in oracle(c, d, refstats):
             orac.append((c, kkey, what, det))
         # --- distribution
         final = parse_script(d["script"][1])
@@ -622,6 +841,7 @@ def run(ctx):
         "samples": samples_out,
         "distribution": stats,
         "corpus_cases": ncorpus,
+        "rule_effects_vs_reference": refstats,
         "exhaustive": False,
         "correspondence_mismatches": len(mism),
         "oracle_failures_on_impl": len(orac),
@@ -676,7 +896,9 @@ MANIFEST = {
             "members are exactly the keys extending the query. Non-vacuity examples are computed. Every run re-checks the proofs, samples "
             "Calculation::Apply of the current /repo for every (rule, spelling) pair, and diffs Script, flags, prism shape and all four "
             "queries (every key, every prefix, extensions, random strings, several limits) of the real Projection/Prism (after Save+Load) "
-            "against the extracted model; the property's clauses are also evaluated directly on the implementation's outputs.",
+            "against the extracted model; the property's clauses are also evaluated directly on the implementation's outputs, and every "
+            "sampled (rule, spelling) effect is compared with an independent python-re reference of the six rule kinds (formulas outside the "
+            "shared regex subset are skipped and counted).",
     "note": "Print Assumptions: closed under the global context for all theorems (no axioms; coqchk -o agrees in the thorough tier). "
             "Trusted/modelled, not verified: boost::regex and the xlit map (arbitrary function in the proofs, sampled oracle in the "
             "correspondence); darts-clone (abstract trie of residual key sets) and the mapped-file byte layout incl. Save/Load (identity in "
